@@ -1213,12 +1213,24 @@ def r32(ctx: Ctx) -> RuleReport:
                         and c.args[0].id in fi.params:
                     par = repo.parent_map(fi.node).get(id(c))
                     if isinstance(par, (ast.Return, ast.Assign)):
+                        # a helper that makes the membership test itself (`_, role, target = triple; if target in variables: return model.deinvert(triple)`)
+                        # hands out a safe triple: its callers need no test of their own
+                        pn = c.args[0].id
+                        slot2 = {f'{pn}[2]'}
+                        for n_ in walk_local(fi.node):
+                            if isinstance(n_, ast.Assign) and isinstance(n_.targets[0], ast.Tuple) and len(n_.targets[0].elts) == 3 and norm(n_.value) == pn:
+                                slot2.add(norm(n_.targets[0].elts[2]))
+                        if any(pol and any(f.startswith(f'{x} in ') for x in slot2) for f, pol in facts_ex(ctx, fi, c)):
+                            continue
                         producers[fi.fq] = fi
                         changed = True
     rep.analysed['producers'] = sorted(producers)
     if len(producers) < 2:
         raise AnalysisError(f'R32: expected Model.invert / Model.dereify among the producers, found {sorted(producers)}')
-    consumers = [f for f in repo.all_functions() if f.module.name == 'penman.transform' or f.fq == 'penman.layout:_interpret_node']
+    from ..resolve import local_callees as _lcs
+    inode = repo.maybe_func('penman.layout', '_interpret_node')
+    helpers = {f.fq for f in _lcs(ctx, inode, depth=1)} if inode is not None else set()
+    consumers = [f for f in repo.all_functions() if f.module.name == 'penman.transform' or f.fq in helpers]
     for fi in consumers:
         v = view(ctx, fi)
         for c, ts in ctx.cg.calls_in(fi):
@@ -1245,6 +1257,15 @@ def r32(ctx: Ctx) -> RuleReport:
                     proven = f'`{src} in ...` holds at the call'
                 elif nested:
                     proven = f'{src} is the variable of a nested node (is_atomic({src[:-3]}) is false here)'
+            if proven is None and c.args and isinstance(c.args[0], ast.Name) and c.args[0].id in fi.params:
+                # the triple is a parameter that the function takes apart: `_, role, target = triple` ... `if target in variables:`
+                pn_ = c.args[0].id
+                slot2_ = {f'{pn_}[2]'} | {norm(n_.targets[0].elts[2]) for n_ in walk_local(fi.node) if isinstance(n_, ast.Assign) and isinstance(n_.targets[0], ast.Tuple)
+                                           and len(n_.targets[0].elts) == 3 and norm(n_.value) == pn_}
+                fx_ = facts_ex(ctx, fi, c)
+                hit_ = next((f for f, pol in fx_ if pol and any(f.startswith(f'{x} in ') for x in slot2_)), None)
+                if hit_:
+                    proven = f'`{hit_}` holds at the call'
             # (b) the source slot of the result is tested before the result is used
             if proven is None:
                 par = v.pm.get(id(c))
